@@ -1176,3 +1176,102 @@ Proof. intros s Hh Hr. unfold step_old, step, step_gen. rewrite Hh, Hr. reflexiv
 
 Lemma lock_never_poisoned : forall s w, step s (LockPoisoned w) = None.
 Proof. reflexivity. Qed.
+
+(* ------------------------------------------------------------------------------------------------ *)
+(* work conservation: whenever no worker and not the recovery thread can move, nothing is queued or running *)
+
+Lemma recv_enabled_nonempty : forall old s w m q, ws s w = InRecv -> lock s = Some w -> queue s = m :: q ->
+  exists r s', step_gen old s (Recv w r) = Some s'.
+Proof.
+  intros old s w m q Hw Hl Hq. destruct m as [id|].
+  - exists (RTask id). unfold step_gen. rewrite Hw, Hl, Nat.eqb_refl, Hq. cbn [rres_eqb]. rewrite Nat.eqb_refl. eauto.
+  - exists RShutdown. unfold step_gen. rewrite Hw, Hl, Nat.eqb_refl, Hq. cbn. eauto.
+Qed.
+
+Lemma quiescent_no_work : forall old s, Inv s ->
+  (forall l, worker_label l = true -> step_gen old s l = None) ->
+  qtasks (queue s) = [] /\ running s = [] /\ rchan s = [] /\ Permutation (done s ++ panicked s) (submitted s).
+Proof.
+  intros old s HI Hstuck.
+  assert (Hr : running s = []).
+  { unfold running. apply running_upto_none. intros w Hw. destruct (ws s w) eqn:E; try reflexivity.
+    assert (H : step_gen old s (Finish w) = None) by (apply Hstuck; reflexivity).
+    unfold step_gen in H. rewrite E in H. discriminate. }
+  assert (Hc : rchan s = []).
+  { destruct (rchan s) as [|h r] eqn:Er; [reflexivity|].
+    destruct (recover_head_enabled old s h r HI Er) as (s' & Hs).
+    rewrite (Hstuck (Recover h) eq_refl) in Hs. discriminate. }
+  assert (Hq : qtasks (queue s) = []).
+  { destruct (queue s) as [|m q] eqn:Eq; [reflexivity|]. rewrite <- Eq.
+    destruct (find_live (nthreads s) (ws s)) as [Hall|(w & Hw & Hne)].
+    - destruct (nthreads s) as [|k] eqn:En.
+      + destruct (i_zero s HI En) as (E0 & _). rewrite E0. reflexivity.
+      + apply (i_exit s HI 0); [lia|apply Hall; lia].
+    - exfalso. destruct (ws s w) eqn:E.
+      + destruct (lock s) as [h|] eqn:El.
+        * pose proof (i_lock1 s HI h El) as Hh.
+          destruct (recv_enabled_nonempty old s h m q Hh El Eq) as (r & s' & Hs).
+          rewrite (Hstuck (Recv h r) eq_refl) in Hs. discriminate.
+        * assert (H : step_gen old s (Acquire w) = None) by (apply Hstuck; reflexivity).
+          unfold step_gen in H. rewrite E, El in H. discriminate.
+      + pose proof (i_lock2 s HI w E) as El.
+        destruct (recv_enabled_nonempty old s w m q E El Eq) as (r & s' & Hs).
+        rewrite (Hstuck (Recv w r) eq_refl) in Hs. discriminate.
+      + assert (H : step_gen old s (Finish w) = None) by (apply Hstuck; reflexivity).
+        unfold step_gen in H. rewrite E in H. discriminate.
+      + assert (H : step_gen old s (Notify w) = None) by (apply Hstuck; reflexivity).
+        unfold step_gen in H. rewrite E in H. discriminate.
+      + assert (Hin : In w (rchan s)) by (now apply (i_dead s HI)). rewrite Hc in Hin. contradiction.
+      + congruence. }
+  repeat split; try assumption.
+  pose proof (i_perm s HI) as P. rewrite Hq, Hr in P. exact P.
+Qed.
+
+(* ------------------------------------------------------------------------------------------------ *)
+(* FIFO: tasks are handed to workers in submission order *)
+
+
+Lemma rres_eqb_eq : forall a b, rres_eqb a b = true -> a = b.
+Proof.
+  intros [i| |] [j| |] H; cbn in H; try discriminate; try reflexivity. apply Nat.eqb_eq in H. now subst.
+Qed.
+
+Lemma step_fifo : forall old s l s', Inv s -> step_gen old s l = Some s' ->
+  qtasks (queue s) ++ exec_of l = recv_of l ++ qtasks (queue s') /\
+  submitted s' = submitted s ++ exec_of l.
+Proof.
+  intros old s l s' HI Hs.
+  destruct l; step_inv Hs; unfold after_recv; simp; cbn [exec_of recv_of app];
+    rewrite ?app_nil_r, ?qtasks_app; cbn [qtasks]; rewrite ?app_nil_r; auto.
+  - apply (i_new s HI) in Heqh. subst s. auto.
+  - apply andb_prop in Heqb0. destruct Heqb0 as [_ Hr]. apply rres_eqb_eq in Hr. subst r. auto.
+  - apply rres_eqb_eq in Heqb0. subst r. auto.
+  - apply rres_eqb_eq in Heqb0. subst r. auto.
+Qed.
+
+Lemma run_fifo : forall old tr s s', Inv s -> run_gen old s tr = Some s' ->
+  qtasks (queue s) ++ flat_map exec_of tr = flat_map recv_of tr ++ qtasks (queue s') /\
+  submitted s' = submitted s ++ flat_map exec_of tr.
+Proof.
+  intros old. induction tr as [|l tr IH]; intros s s' HI Hr; cbn [run_gen flat_map] in *.
+  - injection Hr as <-. rewrite !app_nil_r. auto.
+  - destruct (step_gen old s l) as [s1|] eqn:E; [|discriminate].
+    destruct (step_fifo old s l s1 HI E) as (A & B).
+    destruct (IH s1 s' (step_inv_preserved old s l s1 HI E) Hr) as (C & D).
+    split.
+    + rewrite app_assoc, A, <- app_assoc, C, app_assoc. reflexivity.
+    + rewrite D, B, app_assoc. reflexivity.
+Qed.
+
+(* the ids handed to workers so far, in the order of the Recv steps, followed by the ids still queued, are the
+   submitted ids in submission order *)
+Lemma fifo_order : forall tr s, run init tr = Some s ->
+  flat_map recv_of tr ++ qtasks (queue s) = submitted s /\ submitted s = flat_map exec_of tr.
+Proof.
+  intros tr s Hr. destruct (run_fifo false tr init s inv_init Hr) as (A & B). cbn in A, B. split; congruence.
+Qed.
+
+Lemma no_pending_work_when_quiescent : forall tr s, run init tr = Some s ->
+  (forall l, worker_label l = true -> step s l = None) ->
+  qtasks (queue s) = [] /\ running s = [] /\ rchan s = [] /\ Permutation (done s ++ panicked s) (submitted s).
+Proof. intros tr s Hr Hq. exact (quiescent_no_work false s (reachable_inv tr s Hr) Hq). Qed.
